@@ -46,6 +46,13 @@ impl Axecutor {
 
         let (quotient, remainder) = (ax / src_val, ax % src_val);
 
+        // #DE: the quotient does not fit into the destination
+        if quotient > u8::MAX as u16 {
+            return Err(AxError::from(format!(
+                "Divide error in Div_rm8: quotient {quotient:#x} does not fit into the destination"
+            )));
+        }
+
         self.reg_write_8(AL, quotient as u8 as u64)?;
         self.reg_write_8(AH, remainder as u8 as u64)?;
 
@@ -75,6 +82,13 @@ impl Axecutor {
         let dst_val = self.reg_read_16(AX)? as u32 | ((self.reg_read_16(DX)? as u32) << 16);
 
         let (quotient, remainder) = (dst_val / src_val, dst_val % src_val);
+
+        // #DE: the quotient does not fit into the destination
+        if quotient > u16::MAX as u32 {
+            return Err(AxError::from(format!(
+                "Divide error in Div_rm16: quotient {quotient:#x} does not fit into the destination"
+            )));
+        }
 
         self.reg_write_16(AX, quotient as u16 as u64)?;
         self.reg_write_16(DX, remainder as u16 as u64)?;
@@ -106,6 +120,13 @@ impl Axecutor {
 
         let (quotient, remainder) = (dst_val / src_val, dst_val % src_val);
 
+        // #DE: the quotient does not fit into the destination
+        if quotient > u32::MAX as u64 {
+            return Err(AxError::from(format!(
+                "Divide error in Div_rm32: quotient {quotient:#x} does not fit into the destination"
+            )));
+        }
+
         self.reg_write_32(EAX, quotient as u32 as u64)?;
         self.reg_write_32(EDX, remainder as u32 as u64)?;
 
@@ -135,6 +156,13 @@ impl Axecutor {
         let dst_val = (self.reg_read_64(RAX)? as u128) | ((self.reg_read_64(RDX)? as u128) << 64);
 
         let (quotient, remainder) = (dst_val / src_val, dst_val % src_val);
+
+        // #DE: the quotient does not fit into the destination
+        if quotient > u64::MAX as u128 {
+            return Err(AxError::from(format!(
+                "Divide error in Div_rm64: quotient {quotient:#x} does not fit into the destination"
+            )));
+        }
 
         self.reg_write_64(RAX, quotient as u64)?;
         self.reg_write_64(RDX, remainder as u64)?;
